@@ -5,6 +5,7 @@ mod cipher;
 mod conn;
 mod hash;
 mod mock;
+mod pool;
 #[allow(unused_imports)]
 pub(crate) use hx_core::refcodec;
 #[allow(unused_imports)]
